@@ -105,6 +105,43 @@ def check(c):
                 'CylcDBTable':
             c.ob('C21.no-inner-commit', f'{f.fq} :: no commit',
                  not c.find(f, '_.commit()'), c.where(f.node, f), '')
+    # implicit commits: `with <sqlite connection>:` commits on normal exit;
+    # SQL text with COMMIT / END / BEGIN passed to execute
+    dao = c.idx.cls('CylcWorkflowDAO', 'rundb')
+    n_with = 0
+    for f in dao.methods.values():
+        c.funcs_seen.add(f.fq)
+        aliases = {'self.conn', 'self.connect()'}
+        for n in c.idx.walk(f.node):
+            if isinstance(n, ast.Assign) and norm(n.value) in aliases | {
+                    'sqlite3.connect'}:
+                aliases.add(norm(n.targets[0]))
+        for n in c.idx.walk(f.node):
+            if isinstance(n, (ast.With, ast.AsyncWith)):
+                for it in n.items:
+                    n_with += 1
+                    ce = norm(it.context_expr)
+                    bad = ce in aliases or ce.startswith('sqlite3.connect(')
+                    c.ob('C21.no-implicit-commit',
+                         f'{f.fq} :: with {ce[:60]}', not bad, c.where(n, f),
+                         'not a connection context' if not bad else
+                         'a sqlite3 connection used as a context manager '
+                         'commits when the block exits: the batch is no '
+                         'longer one transaction and rollback is a no-op')
+            if isinstance(n, ast.Call) and isinstance(
+                    n.func, ast.Attribute) and n.func.attr in (
+                    'execute', 'executemany') and n.args and isinstance(
+                    n.args[0], ast.Constant) and isinstance(
+                        n.args[0].value, str):
+                sql = n.args[0].value.strip().upper()
+                bad = sql.startswith(('COMMIT', 'END', 'BEGIN', 'SAVEPOINT',
+                                      'RELEASE'))
+                if bad:
+                    c.ob('C21.no-implicit-commit', c.key(n, f), False,
+                         c.where(n, f), f'explicit transaction control in '
+                         f'SQL text: {sql[:30]}')
+    c.ob('C21.no-implicit-commit', 'rundb:CylcWorkflowDAO :: with-statements '
+         'examined', True, '', f'{n_with} with-items in the DAO')
     # autocommit
     conns = c.find('rundb', 'sqlite3.connect(*_)')
     c.floor('C21.no-autocommit', 'sqlite3.connect in rundb', len(conns), 1)
@@ -308,6 +345,12 @@ VARIANTS = [
      '            self.conn.executemany(stmt, stmt_args_list)\n',
      '            self.conn.executemany(stmt, stmt_args_list)\n'
      '            self.conn.commit()\n', 'C21.'),
+    ('with-connection', 'cylc/flow/rundb.py',
+     '''            self.connect()
+            self.conn.executemany(stmt, stmt_args_list)''',
+     '''            with self.connect() as conn:
+                conn.executemany(stmt, stmt_args_list)''',
+     'C21.no-implicit-commit'),
     ('benign-commit-guard', 'cylc/flow/rundb.py',
      '''            if self.conn is None:
                 return
